@@ -398,4 +398,287 @@ theorem C03_history (es : List Edit) : ∀ (p₀ p' : Problem), Inv p₀ → app
 /-- a rejected edit changes nothing (the model of "every check precedes every assignment") -/
 theorem applyEdits_nil (p : Problem) : applyEdits p [] = .ok p := rfl
 
+/-! ## frame: what an edit is about, and everything else -/
+
+theorem absAction_frame (a : AbstractProblem) (act : Action) (q : Quantity) (h : act.target ≠ q) :
+    absAction a act q = a q := by
+  cases act with
+  | setField f o =>
+    have : q ≠ .field f := fun hq => h hq.symm
+    simp [absAction, upd, this]
+  | write s v =>
+    have : q ≠ .node s := fun hq => h hq.symm
+    simp only [absAction]
+    split
+    · simp [upd, this]
+    · rfl
+
+theorem absActions_frame (as : List Action) : ∀ (a : AbstractProblem) (q : Quantity),
+    (∀ act ∈ as, act.target ≠ q) → absActions a as q = a q := by
+  induction as with
+  | nil => intro a q _; rfl
+  | cons x xs ih =>
+    intro a q h
+    show absActions (absAction a x) xs q = a q
+    rw [ih _ q (fun act hm => h act (List.mem_cons_of_mem _ hm))]
+    exact absAction_frame a x q (h x (List.mem_cons_self ..))
+
+/-- the quantities an edit is about (read off the documentation of the setter, not off the model) -/
+def editTargets (p : Problem) : Edit → List Quantity
+  | .cellNumber i _ => [.node (.cellNumber i)]
+  | .surfNumber i _ => [.node (.surfNumber i)]
+  | .matNumber i _ => [.node (.matNumber i)]
+  | .trNumber i _ => [.node (.trNumber i)]
+  | .uniNumber u _ => [.field (.uniNumber u)]
+  | .material i _ => [.field (.cellMat i)]
+  | .atomDensity i _ => [.field (.cellAtomDens i), .node (.cellDensity i)]
+  | .massDensity i _ => [.field (.cellAtomDens i), .node (.cellDensity i)]
+  | .delDensity i => [.node (.cellDensity i)]
+  | .importance i part _ => [.node (.cellImp i part)]
+  | .importanceAll i _ => (modeParts p).map (fun a => .node (.cellImp i a))
+  | .volume i _ => [.node (.cellVol i)]
+  | .delVolume i => [.node (.cellVol i)]
+  | .lattice i _ => [.node (.cellLat i)]
+  | .delLattice i => [.node (.cellLat i)]
+  | .universe i _ => [.field (.cellUni i)]
+  | .notTruncated i _ => [.field (.cellNotTrunc i)]
+  | .fillUniverse i _ => [.field (.cellFillUni i)]
+  | .fillTransform i _ => [.field (.cellFillTr i)]
+  | .surfConstants i vs => (List.range vs.length).map (fun k => .node (.surfConst i k))
+  | .location i _ => [.node (.surfConst i 0)]
+  | .radius i _ => [.node (.surfConst i 0), .node (.surfConst i 2)]
+  | .coordinates i _ _ => [.node (.surfConst i 0), .node (.surfConst i 1)]
+  | .reflecting i _ => [.field (.surfReflect i)]
+  | .white i _ => [.field (.surfWhite i)]
+  | .surfTransform i _ => [.field (.surfTr i)]
+  | .periodic i _ => [.field (.surfPer i)]
+  | .fraction m k _ => [.node (.matFrac m k)]
+  | .laws m _ => [.field (.matLaws m)]
+  | .displacement t _ => [.field (.trDisp t)]
+  | .rotation t _ => [.field (.trRot t)]
+  | .inDegrees t _ => [.field (.trDeg t)]
+  | .mainToAux t _ => [.field (.trM2A t)]
+  | .modeAdd _ => [.field .mode]
+  | .modeRemove _ => [.field .mode]
+  | .modeSet _ => [.field .mode]
+  | .title _ => [.field .title]
+
+theorem setNumber_targets (p : Problem) (mk : Nat → Slot) (count i : Nat) (fl : Bool) (v : PyVal) (as : List Action)
+    (hp : setNumber p mk count i fl v = .ok as) : ∀ act ∈ as, act.target = .node (mk i) := by
+  simp only [setNumber] at hp
+  repeat' split at hp
+  all_goals first | cases hp | skip
+  all_goals (intro act hm; simp at hm; subst hm; rfl)
+
+theorem setFloat_targets (s : Slot) (an : Bool) (lo : Option (Rat × Bool)) (v : PyVal) (as : List Action)
+    (hp : setFloat s an lo v = .ok as) : ∀ act ∈ as, act.target = .node s := by
+  simp only [setFloat] at hp
+  repeat' split at hp
+  all_goals first | cases hp | skip
+  all_goals (intro act hm; simp at hm; subst hm; rfl)
+
+theorem setBoolField_targets (f : Field) (v : PyVal) (as : List Action)
+    (hp : setBoolField f v = .ok as) : ∀ act ∈ as, act.target = .field f := by
+  unfold setBoolField at hp
+  split at hp
+  · cases hp; intro act hm; simp at hm; subst hm; rfl
+  · cases hp
+
+theorem mem_of_eq_single {q t : Quantity} {l : List Quantity} (h : q = t) (ht : t ∈ l) : q ∈ l := h ▸ ht
+
+/-- every assignment an accepted edit makes is to one of the quantities the edit is about -/
+theorem plan_targets (p : Problem) (e : Edit) (as : List Action) (hp : plan p e = .ok as) :
+    ∀ act ∈ as, act.target ∈ editTargets p e := by
+  cases e with
+  | cellNumber i v => intro act hm; simp [editTargets, setNumber_targets p _ _ _ _ _ _ hp act hm]
+  | surfNumber i v => intro act hm; simp [editTargets, setNumber_targets p _ _ _ _ _ _ hp act hm]
+  | matNumber i v => intro act hm; simp [editTargets, setNumber_targets p _ _ _ _ _ _ hp act hm]
+  | trNumber i v => intro act hm; simp [editTargets, setNumber_targets p _ _ _ _ _ _ hp act hm]
+  | uniNumber u v =>
+    simp only [plan] at hp
+    repeat' split at hp
+    all_goals first | cases hp | skip
+    all_goals (intro act hm; simp at hm; subst hm; simp [editTargets, Action.target])
+  | material i m =>
+    simp only [plan] at hp
+    repeat' split at hp
+    all_goals first | cases hp | skip
+    all_goals (intro act hm; simp at hm; subst hm; simp [editTargets, Action.target])
+  | atomDensity i v =>
+    simp only [plan] at hp
+    repeat' split at hp
+    all_goals first | cases hp | skip
+    all_goals (intro act hm; simp at hm; rcases hm with rfl | rfl <;> simp [editTargets, Action.target])
+  | massDensity i v =>
+    simp only [plan] at hp
+    repeat' split at hp
+    all_goals first | cases hp | skip
+    all_goals (intro act hm; simp at hm; rcases hm with rfl | rfl <;> simp [editTargets, Action.target])
+  | delDensity i =>
+    simp only [plan] at hp
+    repeat' split at hp
+    all_goals first | cases hp | skip
+    all_goals (intro act hm; simp at hm; subst hm; simp [editTargets, Action.target])
+  | importance i part v =>
+    simp only [plan] at hp
+    repeat' split at hp
+    all_goals first | cases hp | skip
+    all_goals (intro act hm; simp at hm; subst hm; simp [editTargets, Action.target])
+  | importanceAll i v =>
+    simp only [plan] at hp
+    repeat' split at hp
+    all_goals first | cases hp | skip
+    all_goals (
+      intro act hm
+      simp only [List.mem_map] at hm
+      obtain ⟨a, ha, rfl⟩ := hm
+      simp only [editTargets, List.mem_map, Action.target]
+      exact ⟨a, ha, rfl⟩)
+  | volume i v =>
+    simp only [plan] at hp
+    split at hp
+    · cases hp
+    · intro act hm; simp [editTargets, setFloat_targets _ _ _ _ _ hp act hm]
+  | delVolume i =>
+    simp only [plan] at hp
+    repeat' split at hp
+    all_goals first | cases hp | skip
+    all_goals (intro act hm; simp at hm; subst hm; simp [editTargets, Action.target])
+  | lattice i v =>
+    simp only [plan] at hp
+    repeat' split at hp
+    all_goals first | cases hp | skip
+    all_goals (intro act hm; simp at hm; subst hm; simp [editTargets, Action.target])
+  | delLattice i =>
+    simp only [plan] at hp
+    repeat' split at hp
+    all_goals first | cases hp | skip
+    all_goals (intro act hm; simp at hm; subst hm; simp [editTargets, Action.target])
+  | «universe» i u =>
+    simp only [plan] at hp
+    repeat' split at hp
+    all_goals first | cases hp | skip
+    all_goals (intro act hm; simp at hm; subst hm; simp [editTargets, Action.target])
+  | notTruncated i v =>
+    simp only [plan] at hp
+    repeat' split at hp
+    all_goals first | cases hp | skip
+    all_goals (intro act hm; simp at hm; subst hm; simp [editTargets, Action.target])
+  | fillUniverse i u =>
+    simp only [plan] at hp
+    repeat' split at hp
+    all_goals first | cases hp | skip
+    all_goals (intro act hm; simp at hm; subst hm; simp [editTargets, Action.target])
+  | fillTransform i t =>
+    simp only [plan] at hp
+    repeat' split at hp
+    all_goals first | cases hp | skip
+    all_goals (intro act hm; simp at hm; subst hm; simp [editTargets, Action.target])
+  | surfConstants i vs =>
+    simp only [plan] at hp
+    repeat' split at hp
+    all_goals first | cases hp | skip
+    all_goals (
+      intro act hm
+      simp only [List.mem_filterMap, List.mem_range] at hm
+      obtain ⟨k, hk, hact⟩ := hm
+      split at hact
+      · cases hact
+        simp only [editTargets, List.mem_map, List.mem_range, Action.target]
+        exact ⟨k, hk, rfl⟩
+      · cases hact)
+  | location i v =>
+    simp only [plan] at hp
+    repeat' split at hp
+    all_goals first | cases hp | skip
+    all_goals (intro act hm; simp [editTargets, setFloat_targets _ _ _ _ _ hp act hm])
+  | radius i v =>
+    simp only [plan] at hp
+    repeat' split at hp
+    all_goals first | cases hp | skip
+    all_goals (intro act hm; simp [editTargets, setFloat_targets _ _ _ _ _ hp act hm])
+  | coordinates i a b =>
+    simp only [plan] at hp
+    repeat' split at hp
+    all_goals first | cases hp | skip
+    all_goals (intro act hm; simp at hm; rcases hm with rfl | rfl <;> simp [editTargets, Action.target])
+  | reflecting i v =>
+    simp only [plan] at hp
+    split at hp
+    · cases hp
+    · intro act hm; simp [editTargets, setBoolField_targets _ _ _ hp act hm]
+  | white i v =>
+    simp only [plan] at hp
+    split at hp
+    · cases hp
+    · intro act hm; simp [editTargets, setBoolField_targets _ _ _ hp act hm]
+  | surfTransform i t =>
+    simp only [plan] at hp
+    repeat' split at hp
+    all_goals first | cases hp | skip
+    all_goals (intro act hm; simp at hm; subst hm; simp [editTargets, Action.target])
+  | periodic i j =>
+    simp only [plan] at hp
+    repeat' split at hp
+    all_goals first | cases hp | skip
+    all_goals (intro act hm; simp at hm; subst hm; simp [editTargets, Action.target])
+  | fraction m k v =>
+    simp only [plan] at hp
+    repeat' split at hp
+    all_goals first | cases hp | skip
+    all_goals (intro act hm; simp [editTargets, setFloat_targets _ _ _ _ _ hp act hm])
+  | laws m ls =>
+    simp only [plan] at hp
+    repeat' split at hp
+    all_goals first | cases hp | skip
+    all_goals (intro act hm; simp at hm; subst hm; simp [editTargets, Action.target])
+  | displacement t xs =>
+    simp only [plan] at hp
+    repeat' split at hp
+    all_goals first | cases hp | skip
+    all_goals (intro act hm; simp at hm; subst hm; simp [editTargets, Action.target])
+  | rotation t xs =>
+    simp only [plan] at hp
+    repeat' split at hp
+    all_goals first | cases hp | skip
+    all_goals (intro act hm; simp at hm; subst hm; simp [editTargets, Action.target])
+  | inDegrees t v =>
+    simp only [plan] at hp
+    split at hp
+    · cases hp
+    · intro act hm; simp [editTargets, setBoolField_targets _ _ _ hp act hm]
+  | mainToAux t v =>
+    simp only [plan] at hp
+    split at hp
+    · cases hp
+    · intro act hm; simp [editTargets, setBoolField_targets _ _ _ hp act hm]
+  | modeAdd part =>
+    simp only [plan] at hp
+    cases hp
+    intro act hm; simp at hm; subst hm; simp [editTargets, Action.target]
+  | modeRemove part =>
+    simp only [plan] at hp
+    repeat' split at hp
+    all_goals first | cases hp | skip
+    all_goals (intro act hm; simp at hm; subst hm; simp [editTargets, Action.target])
+  | modeSet parts =>
+    simp only [plan] at hp
+    cases hp
+    intro act hm; simp at hm; subst hm; simp [editTargets, Action.target]
+  | title s =>
+    simp only [plan] at hp
+    cases hp
+    intro act hm; simp at hm; subst hm; simp [editTargets, Action.target]
+
+/-- **C03_frame** (the "nothing else changes" half at full strength): after any accepted edit, every quantity the
+    edit is not about reads exactly as before — every other attribute of the object, every other object, the other
+    particles of a shared IMP entry, the other cells of a data-block card. -/
+theorem C03_frame (p p' : Problem) (e : Edit) (hI : Inv p) (h : applyEdit p e = .ok p')
+    (q : Quantity) (hq : q ∉ editTargets p e) : α p' q = α p q := by
+  obtain ⟨as, hp, hα⟩ := C03_refines p p' e hI h
+  rw [hα]
+  apply absActions_frame
+  intro act hm heq
+  exact hq (heq ▸ plan_targets p e as hp act hm)
+
 end MontePyVerif.Edits
